@@ -645,6 +645,9 @@ def simulate_poly(rng, tmp, p):
             for h in range(distinct):
                 base.append([rng.randint(0, len(v["alts"])) if rng.random() < 0.6 else 0 for v in vs])
             hs = [base[h % distinct][:] for h in range(P)]
+            if s in p.get("all_het_samples", ()):
+                for i in range(len(vs)):
+                    hs[0][i], hs[1][i] = 0, 1  # heterozygous at every variant: nothing for polyphase to discard
             if dead == "hom":
                 # a chromosome on which the sample cannot be phased: at most one heterozygous variant
                 keep = rng.randrange(len(vs)) if vs and rng.random() < 0.7 else -1
@@ -685,6 +688,9 @@ def simulate_poly(rng, tmp, p):
                 b = min(L, a + fl)
                 if b - a < 40 or any(a < g1 and b > g0 for g0, g1 in gaps):
                     continue
+                win = p.get("read_window", {}).get(s)
+                if win and not (win[0] <= a and b <= win[1]):
+                    continue  # this sample's reads reach only part of the contig
                 seq = list(sim.ref[c][a:b])
                 for v, al in zip(sim.variants[c], sim.haps[c][s][h]):
                     if a <= v["pos"] < b and al > 0:
